@@ -321,8 +321,23 @@ impl Check for C02 {
             if kind == "raw" {
                 return Verdict::Discard("raw".into());
             }
+            // the access path is part of the signature where it is a root cause of its own: `self` has no type inside
+            // the blob literal that defines it
+            let mut on_self = false;
+            syltmodel::walk::walk_program(&case.prog, &mut |e| {
+                if let EKind::Mark(inner) = &e.kind {
+                    if let EKind::Field(base, _) = &inner.kind {
+                        if let EKind::Var(v) = &base.kind {
+                            if case.prog.var(*v).kind == VarKind::SelfVar {
+                                on_self = true;
+                            }
+                        }
+                    }
+                }
+            });
+            let path = if on_self && kind == "field" { "/on-self" } else { "" };
             return Verdict::Violation {
-                signature: format!("C02/strict-dynerror/{}/{}", kind, case.kinds.join("+")),
+                signature: format!("C02/strict-dynerror/{}/{}{}", kind, case.kinds.join("+"), path),
                 detail: format!(
                     "the compiler accepts this program, but executing it applies an operation to a value of the wrong type: {} ({})\nperturbation: {:?}\n--- source ---\n{}",
                     kind, what, case.kinds, printed.text
